@@ -72,9 +72,11 @@ STUBSETS['pipe'] += STUBSETS['adv'] + STUBSETS['chars']
 STUBSETS['pipe4'] = [(t, r.replace('sp_nfc', 'sp_nfc4').replace('sp_nfkc', 'sp_nfkc4')) for t, r in STUBSETS['pipe']]
 STUBSETS['pipe12'] = [(t, r.replace('sp_nfc', 'sp_nfc12').replace('sp_nfkc', 'sp_nfkc12')) for t, r in STUBSETS['pipe']]
 STUBSETS['stab2'] = [('precis_core::profile::stabilize', '$P::stubs::st_stabilize2')]
+STUBSETS['stab1'] = [('precis_core::profile::stabilize', '$P::stubs::st_stabilize1')]
 STUBSETS['pipe_bidi'] = [('crate::bidi::bidi_class_cp', '$P::stubs::sp_bidi_class_cp')]
 
 STUB_DOC = {
+    'stab1': 'S-STAB1: profile::stabilize replaced by one application of the rule function (Nickname no-drift harness only)',
     'stab2': 'S-STAB2: profile::stabilize replaced by two plain applications of the rule function (quick Nickname harnesses only; stabilize itself is C13, the full loop on real code is in the thorough tier)',
     'pipe4': 'S-PIPE with normalizer capacity 4 (strings of at most 1 input character); see S-PIPE',
     'pipe12': 'S-PIPE with normalizer capacity 12 (strings of up to 3 input characters); see S-PIPE',
@@ -540,12 +542,33 @@ HARNESSES = [
     H('C06', 'c06_nickname_two_rounds_n1', '$P::pipe::nickname_two_rounds::<1, 4, 4, false, _>', unwind=5, stubs=('str', 'pipe4', 'stab2'), unwindset=pipe_us(1), timeout=1500, mem_gb=24,
       funcs=['Nickname::enforce', 'Nickname::apply_enforce_rules', 'Nickname::apply_prepare_rules', 'nicknames::trim_spaces/find_disallowed_space', 'FreeformClass::allows'],
       bound='strings of 0..=1 characters over SIGMA_PIPE; two applications of the rule function (S-STAB2)'),
-    H('C07', 'c07_nickname_cmp_rounds_n1', '$P::pipe::nickname_two_rounds::<1, 4, 4, true, _>', unwind=5, stubs=('str', 'pipe4', 'stab2'), unwindset=pipe_us(1), timeout=1500, mem_gb=24,
-      funcs=['Nickname::compare', 'Nickname::apply_compare_rules', 'common::case_mapping_rule'],
-      bound='strings of 0..=1 characters over SIGMA_PIPE; two applications of the comparison rule function (S-STAB2)'),
+    H('C07', 'c07_const_opaque_k0', '$P::pipe::compare_const_freeform::<1, 4, 4, false, 0, false, _>', unwind=5, stubs=('str', 'pipe4'), unwindset=pipe_us(1), timeout=1500, mem_gb=13,
+      funcs=['OpaqueString::compare', 'OpaqueString::enforce'], bound='one operand any string of 0..=1 characters over SIGMA_PIPE, second operand "" (rejected: Invalid)'),
+    H('C07', 'c07_const_opaque_k1', '$P::pipe::compare_const_freeform::<1, 4, 4, false, 1, true, _>', unwind=5, stubs=('str', 'pipe4'), unwindset=pipe_us(1), timeout=1500, mem_gb=13,
+      funcs=['OpaqueString::compare', 'OpaqueString::enforce'], bound='one operand any string of 0..=1 characters over SIGMA_PIPE, first operand "a"'),
+    H('C07', 'c07_const_opaque_k2', '$P::pipe::compare_const_freeform::<1, 4, 4, false, 2, true, _>', unwind=5, stubs=('str', 'pipe4'), unwindset=pipe_us(1), timeout=1500, mem_gb=13,
+      funcs=['OpaqueString::compare', 'OpaqueString::enforce'], bound='one operand any string of 0..=1 characters over SIGMA_PIPE, first operand U+1100 (rejected: BadCodepoint)'),
+    H('C07', 'c07_const_nickname_k0', '$P::pipe::compare_const_freeform::<1, 4, 4, true, 0, false, _>', unwind=5, stubs=('str', 'pipe4', 'stab2'), unwindset=pipe_us(1), timeout=1500, mem_gb=26,
+      funcs=['Nickname::compare', 'Nickname::apply_compare_rules (two applications, S-STAB2)'], bound='one operand any string of 0..=1 characters over SIGMA_PIPE, second operand "" (rejected: Invalid)'),
+    H('C07', 'c07_const_nickname_k1', '$P::pipe::compare_const_freeform::<1, 4, 4, true, 1, true, _>', unwind=5, stubs=('str', 'pipe4', 'stab2'), unwindset=pipe_us(1), timeout=1500, mem_gb=26,
+      funcs=['Nickname::compare', 'Nickname::apply_compare_rules (two applications, S-STAB2)'], bound='one operand any string of 0..=1 characters over SIGMA_PIPE, first operand "a"'),
+    H('C07', 'c07_const_nickname_k2', '$P::pipe::compare_const_freeform::<1, 4, 4, true, 2, true, _>', unwind=5, stubs=('str', 'pipe4', 'stab2'), unwindset=pipe_us(1), timeout=1500, mem_gb=13,
+      funcs=['Nickname::compare', 'Nickname::apply_compare_rules (two applications, S-STAB2)'], bound='one operand any string of 0..=1 characters over SIGMA_PIPE, first operand U+1100 (rejected: BadCodepoint)'),
+    H('C07', 'c07_const_mapped_k0', '$P::pipe_user::compare_const_username::<1, 4, 4, true, 0, false, _>', crate='profiles', unwind=5, stubs=('str', 'pipe4', 'pipe_bidi'), unwindset=pipe_us(1), timeout=1500, mem_gb=26,
+      funcs=['UsernameCaseMapped::compare', 'enforce'], bound='one operand any string of 0..=1 characters over SIGMA_PIPE, second operand "" (rejected: Invalid)'),
+    H('C07', 'c07_const_mapped_k1', '$P::pipe_user::compare_const_username::<1, 4, 4, true, 1, true, _>', crate='profiles', unwind=5, stubs=('str', 'pipe4', 'pipe_bidi'), unwindset=pipe_us(1), timeout=1500, mem_gb=26,
+      funcs=['UsernameCaseMapped::compare', 'enforce'], bound='one operand any string of 0..=1 characters over SIGMA_PIPE, first operand "a"'),
+    H('C07', 'c07_const_mapped_k2', '$P::pipe_user::compare_const_username::<1, 4, 4, true, 2, true, _>', crate='profiles', unwind=5, stubs=('str', 'pipe4', 'pipe_bidi'), unwindset=pipe_us(1), timeout=1500, mem_gb=13,
+      funcs=['UsernameCaseMapped::compare', 'enforce'], bound='one operand any string of 0..=1 characters over SIGMA_PIPE, first operand U+0020 (rejected: BadCodepoint)'),
+    H('C07', 'c07_const_preserved_k0', '$P::pipe_user::compare_const_username::<1, 4, 4, false, 0, false, _>', crate='profiles', unwind=5, stubs=('str', 'pipe4', 'pipe_bidi'), unwindset=pipe_us(1), timeout=1500, mem_gb=26,
+      funcs=['UsernameCasePreserved::compare', 'enforce'], bound='one operand any string of 0..=1 characters over SIGMA_PIPE, second operand "" (rejected: Invalid)'),
+    H('C07', 'c07_const_preserved_k1', '$P::pipe_user::compare_const_username::<1, 4, 4, false, 1, true, _>', crate='profiles', unwind=5, stubs=('str', 'pipe4', 'pipe_bidi'), unwindset=pipe_us(1), timeout=1500, mem_gb=26,
+      funcs=['UsernameCasePreserved::compare', 'enforce'], bound='one operand any string of 0..=1 characters over SIGMA_PIPE, first operand "a"'),
+    H('C07', 'c07_const_preserved_k2', '$P::pipe_user::compare_const_username::<1, 4, 4, false, 2, true, _>', crate='profiles', unwind=5, stubs=('str', 'pipe4', 'pipe_bidi'), unwindset=pipe_us(1), timeout=1500, mem_gb=13,
+      funcs=['UsernameCasePreserved::compare', 'enforce'], bound='one operand any string of 0..=1 characters over SIGMA_PIPE, first operand U+0020 (rejected: BadCodepoint)'),
     H('C06', 'c06_nickname_rounds', '$P::pipe::nickname_rounds', unwind=10, stubs=('str', 'pipe'), unwindset=pipe_us(2), timeout=900,
       funcs=['Profile::prepare/enforce of Nickname', 'Nickname::apply_prepare_rules/apply_enforce_rules', 'profile::stabilize', 'nicknames::trim_spaces/find_disallowed_space', 'StringClass::allows'], bound='the concrete input "a\\u00b4", whose NFKC form introduces a space (second round needed)'),
-    H('C07', 'c07_compare_opaque_n1', '$P::pipe::compare_opaque::<1, 4, 4, _>', unwind=5, stubs=('str', 'pipe4'), unwindset=pipe_us(1), timeout=1500, mem_gb=16,
+    H('C07', 'c07_compare_opaque_n1', '$P::pipe::compare_opaque::<1, 4, 4, _>', unwind=5, stubs=('str', 'pipe4'), unwindset=pipe_us(1), tiers=T, timeout=1500, mem_gb=44,
       funcs=['OpaqueString::compare', 'OpaqueString::enforce'], bound='all pairs of strings of 0..=1 characters over SIGMA_PIPE'),
     H('C07', 'c07_compare_nickname_n1', '$P::pipe::compare_nickname::<1, 4, 4, _>', unwind=5, stubs=('str', 'pipe4'), unwindset=pipe_us(1), tiers=T, timeout=1500, mem_gb=20,
       funcs=['Nickname::compare', 'Nickname::apply_compare_rules', 'profile::stabilize', 'common::case_mapping_rule'],
@@ -555,18 +578,6 @@ HARNESSES = [
     H('C07', 'c07_compare_nickname_n2', '$P::pipe::compare_nickname::<2, 8, 6, _>', unwind=8, stubs=('str', 'pipe'), unwindset=pipe_us(2), tiers=T, timeout=3500, mem_gb=44,
       funcs=['Nickname::compare', 'Nickname::apply_compare_rules', 'profile::stabilize', 'common::case_mapping_rule'],
       bound='all pairs of strings of 0..=2 characters over SIGMA_PIPE'),
-    H('C08', 'c08_no_drift_freeform_n1', '$P::pipe::no_drift_freeform::<1, 4, 4, _>', unwind=5, stubs=('str', 'pipe4'), unwindset=pipe_us(1), timeout=1500, mem_gb=16,
-      funcs=['OpaqueString::enforce', 'Nickname::enforce', 'FreeformClass::get_value_from_char'],
-      bound='strings of 0..=1 characters over SIGMA_PIPE, both Freeform profiles'),
-    H('C08', 'c08_no_drift_freeform_n2', '$P::pipe::no_drift_freeform::<2, 8, 6, _>', unwind=8, stubs=('str', 'pipe'), unwindset=pipe_us(2), tiers=T, timeout=3500, mem_gb=44,
-      funcs=['OpaqueString::enforce', 'Nickname::enforce', 'FreeformClass::get_value_from_char'],
-      bound='strings of 0..=2 characters over SIGMA_PIPE, both Freeform profiles'),
-    H('C16', 'c16_api_forms_freeform_n1', '$P::pipe::api_forms_freeform::<1, 4, 4, _>', unwind=5, stubs=('str', 'pipe4', 'once'), unwindset=pipe_us(1), timeout=1500, mem_gb=16,
-      funcs=['PrecisFastInvocation::{prepare, enforce} of OpaqueString and Nickname (lazy_static singletons)', 'Profile::{prepare, enforce}', 'Into<Cow<str>> for &str / String / Cow'],
-      bound='strings of 0..=1 characters over SIGMA_PIPE; both Freeform profiles; prepare and enforce; one arbitrary earlier call'),
-    H('C16', 'c16_api_forms_freeform_n2', '$P::pipe::api_forms_freeform::<2, 8, 6, _>', unwind=8, stubs=('str', 'pipe', 'once'), unwindset=pipe_us(2), tiers=T, timeout=3500, mem_gb=44,
-      funcs=['PrecisFastInvocation::{prepare, enforce} of OpaqueString and Nickname (lazy_static singletons)', 'Profile::{prepare, enforce}', 'Into<Cow<str>> for &str / String / Cow'],
-      bound='strings of 0..=2 characters over SIGMA_PIPE; both Freeform profiles; prepare and enforce; one arbitrary earlier call'),
     # ---------------------------------------------------------------- C04 + username parts of C07 / C08 / C16 (in-crate: precis-profiles)
     H('C04', 'c04_username_mapped_prepare_n1', '$P::pipe_user::username::<1, 4, 4, true, false, _>', crate='profiles', unwind=5, stubs=('str', 'pipe4', 'pipe_bidi'), unwindset=pipe_us(1), timeout=1500, mem_gb=16,
       funcs=['Profile::prepare/enforce of UsernameCaseMapped and UsernameCasePreserved', 'usernames::width_mapping_rule', 'usernames::directionality_rule', 'bidi::has_rtl/satisfy_bidi_rule', 'common::case_mapping_rule', 'IdentifierClass::allows + context dispatch'], bound='strings of 0..=1 characters over SIGMA_PIPE (43 witnesses), both username profiles'),
@@ -586,22 +597,63 @@ HARNESSES = [
       funcs=['Profile::prepare/enforce of UsernameCaseMapped and UsernameCasePreserved', 'usernames::width_mapping_rule', 'usernames::directionality_rule', 'bidi::has_rtl/satisfy_bidi_rule', 'common::case_mapping_rule', 'IdentifierClass::allows + context dispatch'], bound='strings of 0..=2 characters over SIGMA_PIPE (43 witnesses), both username profiles'),
     H('C04', 'c04_binding', '$P::pipe_user::binding_username', crate='profiles', unwind=8, stubs=('str', 'pipe', 'pipe_bidi'), unwindset=pipe_us(2), timeout=900,
       funcs=['Rules methods of both username profiles (bindings and defaults)'], bound='concrete witnesses (binding of each rule)'),
-    H('C07', 'c07_compare_username_n1', '$P::pipe_user::compare_username::<1, 4, 4, _>', crate='profiles', unwind=5, stubs=('str', 'pipe4', 'pipe_bidi'), unwindset=pipe_us(1), timeout=1500, mem_gb=20,
+    H('C07', 'c07_compare_username_n1', '$P::pipe_user::compare_username::<1, 4, 4, _>', crate='profiles', unwind=5, stubs=('str', 'pipe4', 'pipe_bidi'), unwindset=pipe_us(1), tiers=T, timeout=1500, mem_gb=44,
       funcs=['UsernameCaseMapped::compare', 'UsernameCasePreserved::compare', 'enforce of both'], bound='all pairs of strings of 0..=1 characters over SIGMA_PIPE, both username profiles'),
     H('C07', 'c07_compare_username_n2', '$P::pipe_user::compare_username::<2, 8, 6, _>', crate='profiles', unwind=8, stubs=('str', 'pipe', 'pipe_bidi'), unwindset=pipe_us(2), tiers=T, timeout=3500, mem_gb=44,
       funcs=['UsernameCaseMapped::compare', 'UsernameCasePreserved::compare', 'enforce of both'], bound='all pairs of strings of 0..=2 characters over SIGMA_PIPE'),
-    H('C08', 'c08_no_drift_username_n1', '$P::pipe_user::no_drift_username::<1, 4, 4, _>', crate='profiles', unwind=5, stubs=('str', 'pipe4', 'pipe_bidi'), unwindset=pipe_us(1), timeout=1500, mem_gb=16,
-      funcs=['UsernameCaseMapped::enforce', 'UsernameCasePreserved::enforce', 'IdentifierClass::get_value_from_char'],
-      bound='strings of 0..=1 characters over SIGMA_PIPE, both username profiles'),
-    H('C08', 'c08_no_drift_username_n2', '$P::pipe_user::no_drift_username::<2, 8, 6, _>', crate='profiles', unwind=8, stubs=('str', 'pipe', 'pipe_bidi'), unwindset=pipe_us(2), tiers=T, timeout=3500, mem_gb=44,
-      funcs=['UsernameCaseMapped::enforce', 'UsernameCasePreserved::enforce', 'IdentifierClass::get_value_from_char'],
-      bound='strings of 0..=2 characters over SIGMA_PIPE, both username profiles'),
-    H('C16', 'c16_api_forms_username_n1', '$P::pipe_user::api_forms_username::<1, 4, 4, _>', crate='profiles', unwind=5, stubs=('str', 'pipe4', 'pipe_bidi', 'once'), unwindset=pipe_us(1), timeout=1500, mem_gb=16,
-      funcs=['PrecisFastInvocation::{prepare, enforce} of both username profiles (lazy_static singletons)', 'Profile::{prepare, enforce}'],
-      bound='strings of 0..=1 characters over SIGMA_PIPE; both username profiles; prepare and enforce'),
-    H('C16', 'c16_api_forms_username_n2', '$P::pipe_user::api_forms_username::<2, 8, 6, _>', crate='profiles', unwind=8, stubs=('str', 'pipe', 'pipe_bidi', 'once'), unwindset=pipe_us(2), tiers=T, timeout=3500, mem_gb=44,
-      funcs=['PrecisFastInvocation::{prepare, enforce} of both username profiles (lazy_static singletons)', 'Profile::{prepare, enforce}'],
-      bound='strings of 0..=2 characters over SIGMA_PIPE; both username profiles; prepare and enforce'),
+    # ---------------------------------------------------------------- C08 (ii) no drift, C16 API forms
+    H('C08', 'c08_no_drift_opaque_n1', '$P::pipe::no_drift_freeform::<1, 8, 8, false, _>', unwind=10, stubs=('str', 'pipe'), unwindset=pipe_us(2), timeout=1500, mem_gb=26,
+      funcs=['OpaqueString::enforce'], bound='canonical forms (per the specification, at most 2 characters) of all strings of 0..=1 characters over SIGMA_PIPE'),
+    H('C08', 'c08_no_drift_nickname_n1', '$P::pipe::no_drift_freeform::<1, 8, 8, true, _>', unwind=10, stubs=('str', 'pipe', 'stab1'), unwindset=pipe_us(2), timeout=1500, mem_gb=26,
+      funcs=['Nickname::enforce'], bound='canonical forms (per the specification, at most 2 characters) of all strings of 0..=1 characters over SIGMA_PIPE'),
+    H('C08', 'c08_no_drift_mapped_n1', '$P::pipe_user::no_drift_username::<1, 8, 8, true, _>', crate='profiles', unwind=10, stubs=('str', 'pipe', 'pipe_bidi'), unwindset=pipe_us(2), timeout=1500, mem_gb=42,
+      funcs=['UsernameCaseMapped::enforce'], bound='canonical forms (per the specification) of all strings of 0..=1 characters over SIGMA_PIPE'),
+    H('C08', 'c08_no_drift_preserved_n1', '$P::pipe_user::no_drift_username::<1, 8, 8, false, _>', crate='profiles', unwind=10, stubs=('str', 'pipe', 'pipe_bidi'), unwindset=pipe_us(2), timeout=1500, mem_gb=26,
+      funcs=['UsernameCasePreserved::enforce'], bound='canonical forms (per the specification) of all strings of 0..=1 characters over SIGMA_PIPE'),
+    H('C16', 'c16_form_opaque_f0', '$P::pipe::api_form_freeform::<1, 4, 4, false, 0, _>', unwind=5, stubs=('str', 'pipe4', 'once'), unwindset=pipe_us(1), timeout=1500, mem_gb=17,
+      funcs=['OpaqueString: static prepare'], bound='strings of 0..=1 characters over SIGMA_PIPE'),
+    H('C16', 'c16_form_opaque_f1', '$P::pipe::api_form_freeform::<1, 4, 4, false, 1, _>', unwind=5, stubs=('str', 'pipe4', 'once'), unwindset=pipe_us(1), timeout=1500, mem_gb=17,
+      funcs=['OpaqueString: static enforce'], bound='strings of 0..=1 characters over SIGMA_PIPE'),
+    H('C16', 'c16_form_opaque_f2', '$P::pipe::api_form_freeform::<1, 4, 4, false, 2, _>', unwind=5, stubs=('str', 'pipe4', 'once'), unwindset=pipe_us(1), tiers=T, timeout=1500, mem_gb=17,
+      funcs=['OpaqueString: static compare(x, "a")'], bound='strings of 0..=1 characters over SIGMA_PIPE'),
+    H('C16', 'c16_form_opaque_f3', '$P::pipe::api_form_freeform::<1, 4, 4, false, 3, _>', unwind=5, stubs=('str', 'pipe4', 'once'), unwindset=pipe_us(1), timeout=1500, mem_gb=17,
+      funcs=['OpaqueString: enforce(String)'], bound='strings of 0..=1 characters over SIGMA_PIPE'),
+    H('C16', 'c16_form_opaque_f4', '$P::pipe::api_form_freeform::<1, 4, 4, false, 4, _>', unwind=5, stubs=('str', 'pipe4', 'once'), unwindset=pipe_us(1), tiers=T, timeout=1500, mem_gb=17,
+      funcs=['OpaqueString: enforce(Cow)'], bound='strings of 0..=1 characters over SIGMA_PIPE'),
+    H('C16', 'c16_form_opaque_f5', '$P::pipe::api_form_freeform::<1, 4, 4, false, 5, _>', unwind=5, stubs=('str', 'pipe4', 'once'), unwindset=pipe_us(1), timeout=1500, mem_gb=17,
+      funcs=['OpaqueString: enforce on an instance that already served another call'], bound='strings of 0..=1 characters over SIGMA_PIPE'),
+    H('C16', 'c16_form_nickname_f0', '$P::pipe::api_form_freeform::<1, 4, 4, true, 0, _>', unwind=5, stubs=('str', 'pipe4', 'once', 'stab2'), unwindset=pipe_us(1), tiers=T, timeout=1500, mem_gb=17,
+      funcs=['Nickname: static prepare'], bound='strings of 0..=1 characters over SIGMA_PIPE'),
+    H('C16', 'c16_form_nickname_f1', '$P::pipe::api_form_freeform::<1, 4, 4, true, 1, _>', unwind=5, stubs=('str', 'pipe4', 'once', 'stab2'), unwindset=pipe_us(1), timeout=1500, mem_gb=17,
+      funcs=['Nickname: static enforce'], bound='strings of 0..=1 characters over SIGMA_PIPE'),
+    H('C16', 'c16_form_nickname_f2', '$P::pipe::api_form_freeform::<1, 4, 4, true, 2, _>', unwind=5, stubs=('str', 'pipe4', 'once', 'stab2'), unwindset=pipe_us(1), timeout=1500, mem_gb=17,
+      funcs=['Nickname: static compare(x, "a")'], bound='strings of 0..=1 characters over SIGMA_PIPE'),
+    H('C16', 'c16_form_nickname_f3', '$P::pipe::api_form_freeform::<1, 4, 4, true, 3, _>', unwind=5, stubs=('str', 'pipe4', 'once', 'stab2'), unwindset=pipe_us(1), tiers=T, timeout=1500, mem_gb=17,
+      funcs=['Nickname: enforce(String)'], bound='strings of 0..=1 characters over SIGMA_PIPE'),
+    H('C16', 'c16_form_nickname_f4', '$P::pipe::api_form_freeform::<1, 4, 4, true, 4, _>', unwind=5, stubs=('str', 'pipe4', 'once', 'stab2'), unwindset=pipe_us(1), timeout=1500, mem_gb=17,
+      funcs=['Nickname: enforce(Cow)'], bound='strings of 0..=1 characters over SIGMA_PIPE'),
+    H('C16', 'c16_form_nickname_f5', '$P::pipe::api_form_freeform::<1, 4, 4, true, 5, _>', unwind=5, stubs=('str', 'pipe4', 'once', 'stab2'), unwindset=pipe_us(1), tiers=T, timeout=1500, mem_gb=17,
+      funcs=['Nickname: enforce on an instance that already served another call'], bound='strings of 0..=1 characters over SIGMA_PIPE'),
+    H('C16', 'c16_form_mapped_f0', '$P::pipe_user::api_form_username::<1, 4, 4, true, 0, _>', crate='profiles', unwind=5, stubs=('str', 'pipe4', 'pipe_bidi', 'once'), unwindset=pipe_us(1), tiers=T, timeout=1500, mem_gb=17,
+      funcs=['UsernameCaseMapped: static prepare'], bound='strings of 0..=1 characters over SIGMA_PIPE'),
+    H('C16', 'c16_form_mapped_f1', '$P::pipe_user::api_form_username::<1, 4, 4, true, 1, _>', crate='profiles', unwind=5, stubs=('str', 'pipe4', 'pipe_bidi', 'once'), unwindset=pipe_us(1), timeout=1500, mem_gb=17,
+      funcs=['UsernameCaseMapped: static enforce'], bound='strings of 0..=1 characters over SIGMA_PIPE'),
+    H('C16', 'c16_form_mapped_f2', '$P::pipe_user::api_form_username::<1, 4, 4, true, 2, _>', crate='profiles', unwind=5, stubs=('str', 'pipe4', 'pipe_bidi', 'once'), unwindset=pipe_us(1), tiers=T, timeout=1500, mem_gb=17,
+      funcs=['UsernameCaseMapped: static compare(x, "a")'], bound='strings of 0..=1 characters over SIGMA_PIPE'),
+    H('C16', 'c16_form_mapped_f3', '$P::pipe_user::api_form_username::<1, 4, 4, true, 3, _>', crate='profiles', unwind=5, stubs=('str', 'pipe4', 'pipe_bidi', 'once'), unwindset=pipe_us(1), tiers=T, timeout=1500, mem_gb=17,
+      funcs=['UsernameCaseMapped: enforce(String)'], bound='strings of 0..=1 characters over SIGMA_PIPE'),
+    H('C16', 'c16_form_mapped_f4', '$P::pipe_user::api_form_username::<1, 4, 4, true, 4, _>', crate='profiles', unwind=5, stubs=('str', 'pipe4', 'pipe_bidi', 'once'), unwindset=pipe_us(1), tiers=T, timeout=1500, mem_gb=17,
+      funcs=['UsernameCaseMapped: enforce(Cow)'], bound='strings of 0..=1 characters over SIGMA_PIPE'),
+    H('C16', 'c16_form_preserved_f0', '$P::pipe_user::api_form_username::<1, 4, 4, false, 0, _>', crate='profiles', unwind=5, stubs=('str', 'pipe4', 'pipe_bidi', 'once'), unwindset=pipe_us(1), timeout=1500, mem_gb=17,
+      funcs=['UsernameCasePreserved: static prepare'], bound='strings of 0..=1 characters over SIGMA_PIPE'),
+    H('C16', 'c16_form_preserved_f1', '$P::pipe_user::api_form_username::<1, 4, 4, false, 1, _>', crate='profiles', unwind=5, stubs=('str', 'pipe4', 'pipe_bidi', 'once'), unwindset=pipe_us(1), timeout=1500, mem_gb=17,
+      funcs=['UsernameCasePreserved: static enforce'], bound='strings of 0..=1 characters over SIGMA_PIPE'),
+    H('C16', 'c16_form_preserved_f2', '$P::pipe_user::api_form_username::<1, 4, 4, false, 2, _>', crate='profiles', unwind=5, stubs=('str', 'pipe4', 'pipe_bidi', 'once'), unwindset=pipe_us(1), tiers=T, timeout=1500, mem_gb=17,
+      funcs=['UsernameCasePreserved: static compare(x, "a")'], bound='strings of 0..=1 characters over SIGMA_PIPE'),
+    H('C16', 'c16_form_preserved_f3', '$P::pipe_user::api_form_username::<1, 4, 4, false, 3, _>', crate='profiles', unwind=5, stubs=('str', 'pipe4', 'pipe_bidi', 'once'), unwindset=pipe_us(1), tiers=T, timeout=1500, mem_gb=17,
+      funcs=['UsernameCasePreserved: enforce(String)'], bound='strings of 0..=1 characters over SIGMA_PIPE'),
+    H('C16', 'c16_form_preserved_f4', '$P::pipe_user::api_form_username::<1, 4, 4, false, 4, _>', crate='profiles', unwind=5, stubs=('str', 'pipe4', 'pipe_bidi', 'once'), unwindset=pipe_us(1), tiers=T, timeout=1500, mem_gb=17,
+      funcs=['UsernameCasePreserved: enforce(Cow)'], bound='strings of 0..=1 characters over SIGMA_PIPE'),
     # ---------------------------------------------------------------- C08 (i)
     H('C08', 'c08_casemap_targets', '$P::c08::casemap_targets', unwind=5, unwindset=(('16binary_search_by', 13), ('8try_fold', 4), ('18try_from_fn_erased', 4)), timeout=1500, mem_gb=16,
       funcs=['char::to_lowercase (real std tables: the mapping applied after validation by UsernameCaseMapped::enforce and the Nickname comparison rules)'],
@@ -630,7 +682,7 @@ HARNESSES.append(H('C01', 'c01_ctx_rules_n3', '$P::c01::ctx_rules::<3, 12, _>', 
 for _src, _t in [('c14_pairing', Q), ('c14_pred_is_space', Q), ('c14_pred_is_unassigned', Q), ('c02_any_class_n4', Q),
                  ('c12_nick_map_n3', Q), ('c12_opaque_map_n3', Q), ('c11_width_map_n3', Q), ('c10_case_sigma_n3', Q),
                  ('c13_stabilize_any_fn', Q), ('c05_opaque_enforce_n1', Q), ('c06_nickname_two_rounds_n1', Q), ('c04_username_mapped_enforce_n1', Q),
-                 ('c07_nickname_cmp_rounds_n1', Q), ('c09_bidi_rule_n4', Q),
+                 ('c07_const_nickname_k1', Q), ('c09_bidi_rule_n4', Q),
                  ('c12_nick_map_n5', T), ('c12_opaque_map_n5', T), ('c02_any_class_n6', T), ('c06_nickname_enforce_n2', T), ('c04_username_mapped_enforce_n2', T)]:
     HARNESSES.append(_c01(_src, _t))
 
